@@ -9,8 +9,11 @@ observed with `is`), runs the operation script on the real classes and prints, p
   viol - the clauses of the property text (C11; journal order for C10) that the real objects violate,
          judged here on the real objects against the ABSTRACT class definition (the specification side)
 plus the reified annotations / atoms (what typing really built) for the model to be evaluated on.
-Never hangs: every case runs under an alarm."""
-import sys, json, os, importlib.util, linecache, signal, collections, copy, dataclasses
+Field identifiers: token n is written f<n> unless case['names'] gives it an identifier of the pool (deep, cls, kwargs, ...).
+Call sites: an operation marked {'nest': mode} is made while the user-defined __post_init__ of a type-safe dataclass is running
+(see `invoke`); what is observed is the operation itself, exactly as for a top-level call.
+Never hangs: every case runs under an alarm; a nested operation run in a second thread is joined with a timeout."""
+import sys, json, os, importlib.util, linecache, signal, collections, copy, dataclasses, threading
 import universe as U
 import excs
 
@@ -62,8 +65,11 @@ def exc_code(ex):
     return 5
 
 
+NAMES = {}                                               # per case: field token -> identifier (default f<token>)
+
+
 def fname(n):
-    return 'f%d' % n
+    return NAMES.get(n) or 'f%d' % n
 
 
 def attr_name(n):
@@ -117,13 +123,14 @@ def class_source(case, indent=''):
                 if opts == [f'default=DV_{c["id"]}_{f["name"]}'] and f.get('plain_default', True):
                     body.append(f'{fname(f["name"])}: ANN_{f["tok"]} = DV_{c["id"]}_{f["name"]}')
                 elif opts:
-                    body.append(f'{fname(f["name"])}: ANN_{f["tok"]} = field({", ".join(opts)})')
+                    body.append(f'{fname(f["name"])}: ANN_{f["tok"]} = DCFIELD({", ".join(opts)})')
                 else:
                     body.append(f'{fname(f["name"])}: ANN_{f["tok"]}')
         h = pi_norm(c['pi'])
         if h is not None:
             body.append('def __post_init__(self):')
             body.append(f'    J.append({100 + c["id"]})')
+            body.append('    if PENDING: PENDING.pop()()')     # an operation to be made while this hook is running (mode `same`)
             for k, st in enumerate(h['body']):
                 if st[0] == 'set':
                     body.append(f'    object.__setattr__(self, {attr_name(st[1])!r}, HV_{c["id"]}_{k})')
@@ -138,14 +145,14 @@ def class_source(case, indent=''):
 
 
 def build_module(case, env):
-    head = ['from dataclasses import field', 'from pedantic import frozen_dataclass, frozen_type_safe_dataclass']
+    head = ['from dataclasses import field as DCFIELD', 'from pedantic import frozen_dataclass, frozen_type_safe_dataclass']
     names = [U.ctx_name(n) for n, _, _ in case['ctx']]
     if case['scope'] == 'local':
         src = head + ['def BUILD(ENV):'] + [f'    {nm} = ENV[{nm!r}]' for nm in names] + class_source(case, '    ')
-        src += ['    def CALL(f, *a, **k):', '        (' + ', '.join(names) + ',)', '        return f(*a, **k)']
+        src += ['    def CALL(f, /, *a, **k):', '        (' + ', '.join(names) + ',)', '        return f(*a, **k)']
         src += ['    return {' + ', '.join(f'"K{c["id"]}": K{c["id"]}' for c in case['classes']) + ', "CALL": CALL}']
     else:
-        src = head + class_source(case) + ['def CALL(f, *a, **k):', '    return f(*a, **k)']
+        src = head + class_source(case) + ['def CALL(f, /, *a, **k):', '    return f(*a, **k)']
     text = '\n'.join(src) + '\n'
     _mod_counter[0] += 1
     name = f'pv_dc_{os.getpid()}_{_mod_counter[0]}'
@@ -427,7 +434,7 @@ def snapshot(w, inst, names):
         except AttributeError:
             out.append((n, None, None))
     try:
-        extra = sorted(k for k in vars(inst) if not k.startswith('f'))
+        extra = sorted(k for k in vars(inst) if k not in CUR['field_idents'])
     except TypeError:
         extra = []
     return out, extra
@@ -444,7 +451,111 @@ def attempt(f):
     except BaseException as ex:   # noqa
         if isinstance(ex, (KeyboardInterrupt, SystemExit)):
             raise
+        if isinstance(ex, Timeout):
+            signal.alarm(20)          # the case's alarm is spent: keep the rest of the script guarded
         return exc_code(ex), ex
+
+
+# ------------------------------------------------------------------------------------------ call sites
+_carriers = {}
+
+
+def carriers():
+    """type-safe dataclasses of the worker whose user-defined __post_init__ runs a callable they were given: plain, slots,
+    and a type-safe subclass of a type-safe class (stacked wrappers, base reached through super())"""
+    if _carriers:
+        return _carriers
+    from typing import Any
+    from pedantic import frozen_dataclass, frozen_type_safe_dataclass
+
+    @frozen_type_safe_dataclass
+    class CarrierPlain:
+        thunk: Any
+
+        def __post_init__(self):
+            self.thunk()
+
+    @frozen_dataclass(type_safe=True, slots=True)
+    class CarrierSlots:
+        thunk: Any
+
+        def __post_init__(self):
+            self.thunk()
+
+    @frozen_type_safe_dataclass
+    class CarrierBase:
+        thunk: Any
+
+    @frozen_dataclass(type_safe=True)
+    class CarrierStacked(CarrierBase):
+        tag: int = 0
+
+        def __post_init__(self):
+            self.thunk()
+            super().__post_init__()
+
+    _carriers.update({'hook': CarrierPlain, 'hook-slots': CarrierSlots, 'hook-stacked': CarrierStacked, 'thread': CarrierPlain,
+                      'same': CarrierPlain})
+    return _carriers
+
+
+def nest_of(op):
+    return op[-1].get('nest') if op and isinstance(op[-1], dict) else None
+
+
+def hook_runs(case, c):
+    """a user-written __post_init__ (with the PENDING line) runs first for instances of class c"""
+    return any(pi_norm(k['pi']) is not None for k in chain_of(case, c))
+
+
+def invoke(case, classes, call, mode, prefer, f, a, k):
+    """f(*a, **k) through the module's CALL - at top level (mode None), or while the user-defined __post_init__ of a type-safe
+    dataclass is running.  The operation itself is what the caller observes: its result or exception, and its own journal
+    events (those of the surrounding construction are cut out)."""
+    if mode is None:
+        return call(f, *a, **k)
+    J = CUR['J']
+    box = {}
+
+    def run_it():
+        box['b'] = len(J)
+        box['r'] = attempt(lambda: call(f, *a, **k))
+        box['c'] = len(J)
+
+    def thunk():
+        if 'r' in box or 'started' in box:
+            return
+        box['started'] = True
+        if mode == 'thread':
+            t = threading.Thread(target=run_it, daemon=True)
+            t.start()
+            t.join(30)
+        else:
+            run_it()
+
+    a0 = len(J)
+    outer = None
+    if mode == 'same':
+        # an instance of one of the case's own classes (the class of the operation if possible) whose user hook runs
+        # and for which a construction succeeded earlier in this case: the same arguments again
+        cands = [c for c in ([prefer] if prefer is not None else []) + sorted(CUR['good']) if c in CUR['good'] and hook_runs(case, c)]
+        if cands:
+            outer = cands[0]
+    if outer is not None:
+        pos, kw = CUR['good'][outer]
+        CUR['PENDING'].append(thunk)
+        attempt(lambda: call(classes[outer], *pos, **kw))
+        del CUR['PENDING'][:]
+    if 'started' not in box:
+        attempt(lambda: carriers()[mode](thunk=thunk))
+    if 'r' not in box:
+        del J[a0:]
+        raise Timeout()                                      # the hook did not run the operation / the thread did not finish
+    J[a0:] = J[box['b']:box['c']]
+    code, res = box['r']
+    if code != 0:
+        raise res
+    return res
 
 
 def hash_burst(case, c, inst, n=200):
@@ -502,11 +613,12 @@ def run_op(w, case, classes, call, regs, op):
         c = op[1]
         pos = [w.val(v) for v in op[2]]
         kw = {fname(n): w.val(v) for n, v in op[3]}
-        code, res = attempt(lambda: call(classes[c], *pos, **kw))
+        code, res = attempt(lambda: invoke(case, classes, call, nest_of(op), c, classes[c], pos, kw))
         names = [f['name'] for f in merged_fields(case, c)]
         if code == 0:
             regs.append((c, res))
             CUR['ever'].append((c, res))
+            CUR['good'].setdefault(c, (pos, kw))
             if type(res) is not classes[c]:
                 viol.append({'clause': 'constructor returns an instance of the class', 'op': op})
             return [0] + J[j0:] + [-3, case['classes'][c]['id']] + w.show_fields(res, names), viol
@@ -524,7 +636,7 @@ def run_op(w, case, classes, call, regs, op):
         names = [f['name'] for f in fields]
         before = snapshot(w, orig, names)
         meth = 'copy_with' if kind == 'copy' else 'deep_copy_with'
-        code, res = attempt(lambda: call(getattr(orig, meth), **kw))
+        code, res = attempt(lambda: invoke(case, classes, call, nest_of(op), c, getattr(orig, meth), (), kw))
         after = snapshot(w, orig, names)
         unchanged = 1 if before == after else 0
         if not unchanged:
@@ -623,7 +735,7 @@ def run_op(w, case, classes, call, regs, op):
         r = reg(op[1])
         if r is None:
             return [98], viol
-        code, res = attempt(lambda: call(r[1].validate_types))
+        code, res = attempt(lambda: invoke(case, classes, call, nest_of(op), r[0], r[1].validate_types, (), {}))
         return [code] + J[j0:], viol
     if kind in ('setattr', 'delattr'):
         r = reg(op[1])
@@ -735,8 +847,11 @@ def run_case(case):
         tok_class.append(ann_class[id(a)])
     J = []
     CUR.clear()
-    CUR.update({'J': J, 'ann_class': ann_class, 'keep': anns, 'ever': []})
-    env = {'J': J}
+    NAMES.clear()
+    NAMES.update({int(k): v for k, v in (case.get('names') or {}).items()})
+    CUR.update({'J': J, 'ann_class': ann_class, 'keep': anns, 'ever': [], 'good': {}, 'PENDING': [],
+                'field_idents': {fname(f['name']) for k in case['classes'] for f in k['fields']}})
+    env = {'J': J, 'PENDING': CUR['PENDING']}
     for k, a in enumerate(anns):
         env[f'ANN_{k}'] = a
     for c in case['classes']:
